@@ -52,7 +52,7 @@ ASSUMPTIONS = [
 REQUIRED = {
     'congruence/member/k!=0': 60, 'congruence/nonmember': 60, 'congruence/wraparound-member': 10,
     'congruence/scripted-samples': 40,
-    'between/at-bound': 40, 'between/inside': 30, 'between/outside': 40, 'between/nonreal': 20,
+    'between/at-bound': 40, 'between/inside': 30, 'between/outside': 40, 'between/nonreal': 10,
     'eigen/member/complex-scaling': 30, 'eigen/member/real-scaling': 30, 'eigen/nonmember/near': 30,
     'eigen/degenerate-eigenspace': 10, 'eigen/zero-vector': 5,
     'span/member/independent': 40, 'span/member/dependent-set': 30, 'span/nonmember/independent-set': 30,
@@ -60,8 +60,8 @@ REQUIRED = {
     'phase/member/theta!=0': 40, 'phase/nonmember/rescaled': 20, 'phase/nonmember/out-of-span': 20,
     'entries/all': 30, 'entries/none': 30, 'entries/some/flat': 30, 'entries/some/proportional': 30,
     'entries/match-at-some-samples-only': 20,
-    'linear/related/equals': 10, 'linear/related/proportional': 20, 'linear/related/offset': 20,
-    'linear/related/linear': 20, 'linear/unrelated': 20, 'linear/zero-student': 20, 'linear/zero-expected': 20,
+    'linear/related/equals': 10, 'linear/related/proportional': 10, 'linear/related/offset': 10,
+    'linear/related/linear': 10, 'linear/unrelated': 20, 'linear/zero-student': 20, 'linear/zero-expected': 20,
     'shape/wrong/raised': 100, 'shape/wrong/marked-wrong': 100, 'shape/wrong/suppressed': 100, 'shape/right': 50,
 }
 
@@ -469,6 +469,8 @@ def eigen_specs(draw):
     ccx = draw(st.booleans())
     c = draw(st.one_of(st.just(1.0), st.tuples(signed(0.2, 3.0), real(-3.0, 3.0)).map(list) if ccx
                        else signed(0.2, 3.0),
+                       st.tuples(signed(0.2, 3.0), signed(0.2, 3.0)).map(list),      # genuinely complex factors
+
                        # "under any rescaling of v": also by factors far from 1 (a seeded change took a small true
                        # eigenvector for the zero vector under percentage tolerances)
                        st.sampled_from([1e-4, -6e-5, 1e-3, 250.0, -4000.0, 2e-5])))
